@@ -242,7 +242,45 @@ impl Check for C06 {
             // special shapes: deep nesting, huge literals, zero divisors
             7 => {
                 let mut t = Txn::new(Date::new(2024, 1, 1), "special");
-                match rng.below(7) {
+                match rng.below(10) {
+                    7 => {
+                        // declaration shapes nobody writes on purpose: one alias under two names,
+                        // an alias equal to its own name, the same alias twice, a name declared twice
+                        class = "declarations";
+                        let kind = if rng.chance(1, 2) { "account" } else { "commodity" };
+                        let (n1, n2, al, used) = if kind == "account" {
+                            ("Assets:Bank:Old", "Assets:Bank:New", "bank", "    bank    100.00 CHF")
+                        } else {
+                            ("Franc", "CHF", "Fr", "    Assets:Bank    100.00 Fr")
+                        };
+                        let mut lines: Vec<String> = Vec::new();
+                        match rng.below(5) {
+                            0 => lines.extend([format!("{} {}", kind, n1), format!("    alias {}", al), String::new(), format!("{} {}", kind, n2), format!("    alias {}", al)]),
+                            1 => lines.extend([format!("{} {}", kind, n1), format!("    alias {}", n1)]),
+                            2 => lines.extend([format!("{} {}", kind, n1), format!("    alias {}", al), format!("    alias {}", al)]),
+                            3 => lines.extend([format!("{} {}", kind, n1), format!("    alias {}", al), String::new(), format!("{} {}", kind, n1), format!("    alias {}", al)]),
+                            _ => lines.extend([format!("{} {}", kind, n1), format!("    alias {}", n2), String::new(), format!("{} {}", kind, n2), format!("    alias {}", n1)]),
+                        }
+                        lines.push(String::new());
+                        lines.extend(["2024/01/01 Opening".to_string(), used.to_string(), "    Equity".to_string()]);
+                        world.files[0].push(Entry::Raw(lines));
+                    }
+                    8 | 9 => {
+                        // a flat chain of operators: no nesting at all, but a tree as deep as it is long
+                        class = "long-chain";
+                        let n = *rng.pick(&[200usize, 1_000, 1_030, 3_000, 10_000, 50_000, 200_000]);
+                        let (term, op) = *rng.pick(&[("1 USD", " + "), ("1 USD", " - "), ("2", " * "), ("1 USD", "+")]);
+                        let mut body = vec![term; n].join(op);
+                        if term == "2" {
+                            body = format!("1 USD * {}", vec!["1"; n].join(op));
+                        }
+                        let line = match rng.below(3) {
+                            0 => format!("    Assets:A  ({})", body),
+                            1 => format!("    Assets:A  1 USD @ ({})", body),
+                            _ => format!("    Assets:A  1 USD = ({})", body),
+                        };
+                        world.files[0].push(Entry::Raw(vec!["2024/01/02 long".to_string(), line, "    Assets:B".to_string()]));
+                    }
                     6 => {
                         // layout corners of `format`: accounts wider than every column the printer
                         // aligns to, in each shape a posting can take
@@ -407,6 +445,23 @@ impl Check for C06 {
                         _ => format!("P {} {} {}.{} {}", d, a, 1 + rng.below(200), rng.below(100), b),
                     });
                 }
+                let mut ladder_target: Option<String> = None;
+                if rng.chance(1, 4) {
+                    // a ladder of equally good routes: every rung offers two 2-step ways up, all quoted
+                    // on one day; a search that revisits ties needs 2^rungs steps
+                    let rungs = 12 + rng.usize(28);
+                    lines.clear();
+                    let name = |i: usize| format!("C{}{}", (b'a' + (i / 26) as u8) as char, (b'a' + (i % 26) as u8) as char);
+                    for i in 0..rungs {
+                        for side in ["L", "R"] {
+                            let mid = format!("{}{}", side, name(i));
+                            lines.push(format!("P 2024/01/05 {} 2 {}", name(i), mid));
+                            lines.push(format!("P 2024/01/05 {} 0.5 {}", mid, name(i + 1)));
+                        }
+                    }
+                    lines.push(format!("P 2024/01/05 USD 1 {}", name(0)));
+                    ladder_target = Some(name(rungs));
+                }
                 let mut text = lines.join("\n");
                 if rng.chance(4, 5) {
                     text.push('\n');
@@ -434,6 +489,9 @@ impl Check for C06 {
                         path: "/w/prices.db".to_string(),
                         fault: f,
                     }]);
+                }
+                if let Some(t) = &ladder_target {
+                    extra_cmds.push(sv(&["primitive", "eval", "--date", "2024-06-01", "--price-db", "/w/prices.db", "-X", t, "-f", &root, "1 USD"]));
                 }
                 let t = coms[rng.usize(4)];
                 extra_cmds.push(sv(&["balance", "--price-db", "/w/prices.db", "-X", t, "--now", "2024-12-31", &root]));
